@@ -246,8 +246,16 @@ def execute(plan):
                 # retained point is the state's x: see DESIGN 12.3)
                 ups = [u for u in A.up_log if u[0] <= rec["event"]]
                 ref2 = R.get(k + 2)
+                same_active = True
+                if verdict == "ok":
+                    xa, xr = np.asarray(act.result.x, dtype=float), np.asarray(ref.result.x, dtype=float)
+                    same_active = bool(
+                        np.array_equal(xa == problem.lb, xr == problem.lb) and np.array_equal(xa == problem.ub, xr == problem.ub)
+                    )
+                    stats["nj.active_set_knife_edge"] += 0 if same_active else 1
                 if (
                     verdict == "ok"
+                    and same_active
                     and cfg["jac"] == "callable"
                     and ups
                     and ups[-1][1]
